@@ -33,7 +33,7 @@ static const Part kParts[] = {
 	{"C17", "resource-layout", 12000, 200000},
 	{"C17", "vol-giant", 150, 6000},
 	{"C18", "twin-env", 10000, 300000},
-	{"C20", "limits", 58, 140},
+	{"C20", "limits", 64, 152},
 };
 
 std::vector<Part> suiteFor(const std::string& prop) {
